@@ -71,6 +71,8 @@ MemFactOK(e, mode) ==
   LET N == e.N  w == e.w IN
   IF mode = "footprint" THEN
     /\ e.sig = "none"
+    \* byte-exact read footprint where memcheck observed the call: no access outside the addressed elements
+    /\ ("vgerr" \in DOMAIN e => e.vgerr = 0)
     /\ CASE e.o = "store"   -> SameOutside(e.before, e.after, e.lead, Active(e.n, N) * w)
          [] e.o = "scatter" -> \A b \in 1..Len(e.mem) :
                                   (\A i \in 1..Len(e.idx) : e.base + e.idx[i] # (b - 1) \div w)
